@@ -368,6 +368,37 @@ fn case_fault(r: &mut Rng, id: usize, thorough: bool, out: &mut String) {
     }
 }
 
+/// remove_axes on a tree with a warm cache: the states must be reset (a witness of the old space is not a witness of
+/// the projected tree); afterwards an elimination on the projected tree must again leave only sound caches
+fn case_remove_axes(r: &mut Rng, id: usize, out: &mut String) {
+    let mut t = if r.chance(1, 2) { gen_pipeline(r) } else { gen_elim_tree(r, false) };
+    let n = t.in_dim();
+    if r.chance(3, 4) {
+        t.infeasible_elimination();
+    }
+    let before = sx_tree(&t);
+    let mask: Vec<bool> = (0..n).map(|_| r.chance(1, 2)).collect();
+    let mask_s: Vec<String> = mask.iter().map(|b| if *b { "1".to_string() } else { "0".to_string() }).collect();
+    let mut h = t.clone();
+    let res = catch(AssertUnwindSafe(|| h.remove_axes(&Array1::from(mask.clone())).is_ok()));
+    let (after, after2) = match res {
+        Ok(true) => {
+            let a = sx_tree(&h);
+            let mut h2 = h.clone();
+            let a2 = match catch(AssertUnwindSafe(|| {
+                h2.infeasible_elimination();
+            })) {
+                Ok(()) => sx_tree(&h2),
+                Err(_) => "panic".to_string(),
+            };
+            (a, a2)
+        }
+        Ok(false) => ("err".to_string(), "-".to_string()),
+        Err(_) => ("panic".to_string(), "-".to_string()),
+    };
+    out.push_str(&format!("(case {} raxes {} (mask {}) {} {})\n", id, before, mask_s.join(" "), after, after2));
+}
+
 fn case_mirror(r: &mut Rng, id: usize, out: &mut String) {
     // mirror_points on generated polytopes / start points (inside, outside, far, on a face; feasible, thin, empty)
     let n = 1 + r.below(3);
@@ -419,7 +450,9 @@ fn main() {
             }
             "c06" => case_elim(&mut cr, id, true, &mut out),
             "c05" => {
-                if id % 3 == 0 {
+                if id % 8 == 7 {
+                    case_remove_axes(&mut cr, id, &mut out)
+                } else if id % 3 == 0 {
                     case_mirror(&mut cr, id, &mut out)
                 } else if id % 3 == 1 {
                     case_elim(&mut cr, id, false, &mut out)
